@@ -8,7 +8,7 @@ from uuid import UUID
 
 from ..utils import exceptions as exc
 from ..utils.base import ParamsCollector
-from ..utils.compat import Literal, get_args, is_final, is_annotated, ForwardRef
+from ..utils.compat import Literal, get_args, is_final, is_annotated, ForwardRef, str_qualifier
 from ..utils.datastructures import unprovided
 from ..utils.functional import copy_value, get_name, multi, distinct_add
 from .options import Options, RuntimeContext
@@ -1175,6 +1175,12 @@ class ParserField:
         output_type = None
         dependencies = None
 
+        str_final = False
+        if isinstance(annotation, str) and is_final(annotation):
+            # 'Final[int]' under postponed evaluation: the type is what is inside
+            str_final = True
+            annotation = str_qualifier(annotation)[1] or Any
+
         if isinstance(annotation, str):
             annotation = ForwardRef(annotation)
 
@@ -1298,8 +1304,8 @@ class ParserField:
             else:
                 field_kwargs.update(no_output=True)
 
-        final = is_final(annotation)
-        if final:
+        final = str_final or is_final(annotation)
+        if final and not str_final:
             # turn to Any by default, not bare Final, which will not be recognized as a valid annotation
             # _origin = get_origin(annotation)
             # if _origin == Final:
